@@ -100,6 +100,8 @@ def c04(tier):
     # nothing was negotiated, so RSV1 is as reserved as RSV2/RSV3 and text is validated incrementally as usual
     fam.append(recv_spec('offer-declined-N4', tags + ['C01', 'C05'], N=4 if tier == 'quick' else 5, offer_declined=True))
     fam.append(recv_spec('offer-declined-text-bytewise', tags + ['C01', 'C05'], N=5, first_opcodes=[1], offer_declined=True, cuts='bytewise'))
+    # the checked connection is preceded by an earlier one (unfinished fragments, frames cut anywhere, ...) on another or on the SAME object
+    fam.append(recv_spec('after-earlier-connection-N3', tags + ['C01'], N=3, earlier=EARLIER))
     fam.append(recv_spec('closing-state-N4', tags + ['C01'], N=4 if tier == 'quick' else 5, app_close_at_ready=True))
     fam.append(recv_spec('closing-state-close-codes', tags + ['C01'], N=5 if tier == 'quick' else 6, first_opcodes=[8], no_rsv=True,
                          app_close_at_ready=True))
@@ -426,6 +428,14 @@ def c09(tier):
                            connect=dict(poll=1.0, close_timeout=3.0),
                            app=dict(actions=['close', 'close_default'], max_actions=1, only_events=['connected', 'ready', 'text']),
                            fault=dict(ops=['sendall'], kinds=['oserror', 'exception'], max=1, skip={'sendall': 1}), max_waits=30))
+    specs.append(life_spec('keepalive-write-fault', tags,
+                           'ping_rate armed on a virtual clock, silent server: one symbolic fault on any write after the upgrade request - the automatic Ping, '
+                           'a Pong, an application send: neither side started the closing handshake, so the connection must end with a NON-graceful '
+                           'Disconnected and a closed socket',
+                           server=dict(kind='grammar', K=1, alphabet=['text', 'ping']), end='silence', silent_waits=6,
+                           connect=dict(poll=1.0, ping_rate=1.0),
+                           fault=dict(ops=['sendall'], kinds=['oserror', 'exception'], max=1, skip={'sendall': 1}, sticky=['sendall']),
+                           app=dict(actions=['send_text'], max_actions=1), max_waits=40))
     specs.append(life_spec('single-fault-compressed', tags,
                            'as single-fault with permessage-deflate negotiated (abstract zlib): the application sends go through the compressed send path',
                            server=dict(kind='fixed', hex='810161' + '890170' + '8800'), compress=True,
@@ -525,6 +535,8 @@ def c10(tier):
         S('reply-upgrade-specials', 'run_reply', 'plain reply, status 101, 9-byte Upgrade value over token characters PLUS the other visible ASCII characters '
           '({ } % ! # $ & \' * + . ^ _ ` | ~): whatever the value, an incorrect reply ends in Rejected (never in an escaped exception or a bare Disconnected)',
           templates=['plain'], sym_status=False, sym_case=False, upgrade_class='token+'),
+        S('reply-first-read', 'run_reply', 'correct reply (status fixed, holes symbolic) whose FIRST read delivers only 1..6 bytes (solver variable), the rest in one read: '
+          'the verdict must be the same as for one read', sym_status=False, sym_case=False, templates=['plain', 'folded-accept'], cuts='first-small'),
         S('reply-wide-tokens', 'run_reply_wide', 'otherwise correct reply in which ONE of status / Upgrade value / Accept value is a hole of symbolic bytes '
           '1-2 bytes LONGER than the correct token, every byte >= 0x21 incl. all non-ASCII bytes (UTF-8 encoded Unicode digits, case-folding '
           'look-alikes such as U+212A, Unicode white space such as U+00A0/U+3000): never Ready, always Rejected', xval_stride=7),
@@ -640,6 +652,9 @@ def c15(tier):
                        K=K + 1, ping_rate=r, ping_timeout='none', close_timeout='none', actions=['silent', 'text'], app_close=False))
     specs.append(S('ping-timeout', W + 'ping_timeout symbolic, ping_rate=1, server actions {silent, Pong}: Unresponsive iff more than t since Ready / last Pong, '
                    'at the first housekeeping instant', K=K + 1, ping_rate=1, close_timeout='none', actions=['silent', 'pong'], app_close=False))
+    specs.append(S('ping-timeout-server-pings', W + 'ping_timeout symbolic, ping_rate=1, server actions {silent, Pong, PING}: a Ping FROM the server (answered by an '
+                   'automatic Pong) is not a Pong - the timeout runs from Ready / the last Pong received', K=K + 1, ping_rate=1, close_timeout='none',
+                   actions=['silent', 'pong', 'ping'], app_close=False))
     specs.append(S('ping-timeout-r0', W + 'ping_timeout symbolic with ping_rate=0 (no automatic Pings): the timeout still runs from Ready / the last Pong',
                    K=K + 1, ping_rate=0, close_timeout='none', actions=['silent', 'pong'], app_close=False))
     specs.append(S('close-timeout', W + 'close_timeout symbolic, application close() at a solver-chosen event, server actions {silent, Text, Close}: forced '
